@@ -38,11 +38,18 @@ def present_key(key: tuple, shape) -> tuple:
     """a slice bound inside the current extent can equally be counted from the end (lo - n, hi - n): a presentation of
     the same key, rotated with the array layout"""
     import bind
-    if bind.get_layout() not in ("swapped", "grown"):
+    lay = bind.get_layout()
+    if lay not in ("swapped", "grown"):
         return key
     out = []
     for m, k in enumerate(key):
-        if isinstance(k, slice) and m < len(shape):
+        if isinstance(k, int) and lay == "swapped":
+            # an integer key that comes out of an index computation is a numpy integer
+            out.append(np.int64(k))
+        elif isinstance(k, list) and lay == "grown" and m < len(shape) and all(0 <= e < int(shape[m]) for e in k):
+            # entries of an index list counted from the end
+            out.append([e - int(shape[m]) for e in k])
+        elif isinstance(k, slice) and m < len(shape):
             n = int(shape[m])
             lo, hi = k.start, k.stop
             # (also when the upper bound grows the mode: "from the end" refers to the extent before the assignment)
